@@ -14,7 +14,7 @@ BURST_COLS = {'cycles': record.FEAT4, 'amp': ['burst_fraction']}
 
 
 def _rec(case, opts_obj=None):
-    rec, df = record.record_compute_features(case, opts_obj=opts_obj)
+    rec, df = record.record_compute_features(pipeline.as_recorded_dtype(case), opts_obj=opts_obj)          # integer-typed recordings where the values allow
     side = {'raised': rec['raised'], 'pos': rec['filt']['pos'], 'mask': rec['dt']['mask'], 'L': rec['flen']['L'], 'rows': [],
             'flen': {k: rec['flen'][k] for k in ('seen', 'fs', 'flo', 'fhi', 'ncyc', 'nsec')}, 'filt': {k: rec['filt'][k] for k in ('seen', 'fs', 'flo', 'fhi', 'ncyc', 'nsec')}}
     if df is not None:
